@@ -22,8 +22,9 @@ def setup():
     os.makedirs(os.path.join(VERIF, "work"), exist_ok=True)
     os.makedirs(os.path.join(VERIF, "evidence"), exist_ok=True)
     import cirkit  # pylint: disable=import-outside-toplevel
-    if not os.path.abspath(cirkit.__file__).startswith("/repo/"):
-        print("cirkit is not imported from /repo:", cirkit.__file__)
+    repo = os.environ.get("VERIF_REPO", "/repo")
+    if not os.path.abspath(cirkit.__file__).startswith(repo.rstrip("/") + "/"):
+        print(f"cirkit is not imported from {repo}:", cirkit.__file__)
         rc = 2
     for f in sorted(glob.glob(os.path.join(VERIF, "specs", "*.tla"))):
         if os.path.basename(f).startswith("MC_"):
@@ -59,7 +60,8 @@ def main():
     prop = registry.PROPS[a.pid]
     try:
         if a.replay:
-            return prop["replay"](os.path.join(VERIF, a.replay) if not os.path.isabs(a.replay)
+            from . import runner  # pylint: disable=import-outside-toplevel
+            return prop["replay"](os.path.join(runner.OUT, a.replay) if not os.path.isabs(a.replay)
                                   else a.replay)
         return prop["run"](a.tier, seed)
     except Exception:  # pylint: disable=broad-except
